@@ -18,6 +18,13 @@ type Locker interface {
 	TryLock() bool
 }
 
+// RLocker is the subset of sync.RWMutex needed for read locks.
+type RLocker interface {
+	RLock()
+	RUnlock()
+	TryRLock() bool
+}
+
 // The hook variables are nil unless a simulation harness installs them.
 // They are only ever reached from copies of the sources rewritten by the
 // harness (via go build -overlay); the sources in this module do not call
@@ -27,6 +34,10 @@ var (
 	OnLock func(l Locker, site string)
 	// OnUnlock, if set, must release l.
 	OnUnlock func(l Locker, site string)
+	// OnRLock, if set, must return with l read-locked by the calling goroutine.
+	OnRLock func(l RLocker, site string)
+	// OnRUnlock, if set, must release a read lock on l.
+	OnRUnlock func(l RLocker, site string)
 	// OnRange, if set, returns the order in which n sorted map keys are
 	// visited (a permutation of 0..n-1), or nil for sorted order.
 	OnRange func(n int, site string) []int
@@ -48,6 +59,24 @@ func Unlock(l Locker, site string) {
 		return
 	}
 	l.Unlock()
+}
+
+// RLock read-locks l, giving the harness a chance to schedule first.
+func RLock(l RLocker, site string) {
+	if f := OnRLock; f != nil {
+		f(l, site)
+		return
+	}
+	l.RLock()
+}
+
+// RUnlock releases a read lock on l.
+func RUnlock(l RLocker, site string) {
+	if f := OnRUnlock; f != nil {
+		f(l, site)
+		return
+	}
+	l.RUnlock()
 }
 
 // RangeMap iterates m in an order chosen by the harness (sorted by key when
